@@ -80,6 +80,15 @@ class C02(Check):
                 out.append({"op": "quotient", "c1": dividend, "c2": divisor, "addl": [], "simplify": rng.random() < 0.6,
                             "order": [1, 2, 3, 4, 5] if rng.random() < 0.7 else rand_order(rng), "tag": "chain4"})
                 continue
+            if rng.random() < 0.06:
+                # two dividend guarantees need a bound on the same hidden variable from the same side and the divisor offers none from
+                # that side: each could only be "refined" with the other one as a fact (circular) — the quotient has to be refused
+                s1, s2 = float(rng.choice([2, 3])), float(rng.choice([4, 5]))
+                dividend = {"ins": ["i"], "outs": ["o", "w"], "a": [], "g": [{"c": {"o": 1.0, "i": -s1}, "k": 0.0}, {"c": {"w": 1.0, "i": -s2}, "k": float(rng.randint(0, 2))}]}
+                divisor = {"ins": ["i"], "outs": ["z"], "a": [], "g": [{"c": {"i": 1.0, "z": -1.0}, "k": 0.0}] if rng.random() < 0.7 else [{"c": {"z": 1.0, "i": -1.0}, "k": 0.0}]}
+                out.append({"op": "quotient", "c1": dividend, "c2": divisor, "addl": [], "simplify": rng.random() < 0.5,
+                            "order": rng.choice([[1, 2, 3, 4, 5], [1, 2, 3, 4, 5], [2, 3, 1, 4, 5], [4, 1], [4]]), "tag": "mutual-q"})
+                continue
             if m < 0.65:
                 try:
                     top = G.un_contract(G.mk_contract(c1, simplify=False).compose(G.mk_contract(h, simplify=False)))
